@@ -20,6 +20,15 @@ func registerPW() {
 		Shrink:  pw.Shrink,
 		OneShot: true,
 		Timeout: 20 * time.Second,
+		Ref: func(raw json.RawMessage) (json.RawMessage, bool) {
+			var sc pw.Scenario
+			if json.Unmarshal(raw, &sc) != nil || sc.Profile != "spell" || len(sc.History) == 0 || len(sc.Mutations) > 0 {
+				return nil, false
+			}
+			sc.History, sc.HistAfter, sc.Tapes, sc.HaveTape = nil, 0, nil, false
+			b, _ := json.Marshal(&sc)
+			return b, true
+		},
 	}
 	pwSim := []string{"SimWriter / SimReader / SimPipe (chunking, write faults, bounded pipe)", "task scheduler with schedule tape (concurrent Pack tasks, Chdir task, Pack||Unpack over the pipe)", "tree builder (the model tree is the generated node list)", "reference ignore matcher (model.Excluded)", "expected entry list / round-trip comparison"}
 	plans["C02"] = &Plan{ID: "C02", Level: "exploration",
@@ -39,7 +48,7 @@ func registerPW() {
 		Real:   realCommon, Sim: pwSim}
 	plans["C16"] = &Plan{ID: "C16", Level: "exploration",
 		Legs:   []Leg{{World: "pw", Profile: "spell", Quick: 5000, Weight: 1}},
-		Rule:   "each evaluation = one tree packed 2-5 times with the same options under different spellings of the source (absolute, trailing slash, dot, dot-dot detour, relative, through a symlink with absolute or relative target), working directories, preceding histories, and (one third) as concurrent Pack tasks plus a Chdir task interleaved at writer yields by the schedule tape; decoded entry lists must be identical and, for trees without out-of-tree links, equal to the model's depth-first list. distinct = scenario hash.",
+		Rule:   "each evaluation = one tree packed 2-5 times with the same options under different spellings of the source (absolute, trailing slash, dot, dot-dot detour, relative, through a symlink with absolute or relative target), working directories, preceding histories (placed before all runs or between the first run and the rest; and every scenario with a history is also executed without it in a fresh worker process, whose per-run output digests the runs after the history must equal), and (one third) as concurrent Pack tasks plus a Chdir task interleaved at writer yields by the schedule tape; decoded entry lists must be identical and, for trees without out-of-tree links, equal to the model's depth-first list. distinct = scenario hash.",
 		Assume: []string{"interleaving granularity = writer calls (gzip buffers; small trees give few yields)", "under concurrency the source is spelled absolutely (a relative spelling would denote a different directory after Chdir)"},
 		Real:   realCommon, Sim: pwSim}
 	plans["C20"] = &Plan{ID: "C20", Level: "exploration",
@@ -48,8 +57,8 @@ func registerPW() {
 		Assume: []string{"thin simulation dimension: evaluated on the simulator's runs, incl. concurrent ones"},
 		Real:   realCommon, Sim: pwSim}
 	plans["C12"] = &Plan{ID: "C12", Level: "fault_enumeration",
-		Legs:   append([]Leg{{World: "uw", Profile: "sweep", Quick: 16, Weight: 2}, {World: "pw", Profile: "sweep", Quick: 30, Weight: 2}}, bwC12Legs()...),
-		Rule:   "fault enumeration: for each seeded base scenario the single-fault space is swept, not sampled - Unpack: every compressed-byte offset x {err, trunc, uneof, err+data} (+ transient err), oracle: nil => dst equals the reference interpretation of the whole archive, policy rejections are illegal-slug errors; Pack: every writer call index 1-12 x {err, partial+err} x {sticky, transient} and strided byte offsets, oracle: device error => Pack error and nil Meta; Build: every peer-call index x its fault kinds, oracles: error diagnostic returned, builder refuses afterwards (porcupine history check), no bundle from a failed build, target not openable at any callback boundary or with any torn manifest prefix, finder diagnostics delivered once with severity/text intact and file names rewritten. evaluations = faulted runs; distinct = scenario hash; non-trivial = a fault actually fired.",
+		Legs:   append([]Leg{{World: "uw", Profile: "sweep", Quick: 16, Weight: 2}, {World: "pw", Profile: "sweep", Quick: 30, Weight: 2}, {World: "uw", Profile: "wellformed", Quick: 3000, Weight: 1}, {World: "uw", Profile: "mixed", Quick: 3000, Weight: 1}}, bwC12Legs()...),
+		Rule:   "fault enumeration: for each seeded base scenario the single-fault space is swept, not sampled - Unpack: every compressed-byte offset x {err, trunc, uneof, err+data} (+ transient err), oracle: nil => dst equals the reference interpretation of the whole archive, policy rejections are illegal-slug errors; plus fault-free sequences of 1-3 archives into one (possibly populated) destination: nil => every link entry that is the last for its path is at that path with its target; Pack: every writer call index 1-12 x {err, partial+err} x {sticky, transient} and strided byte offsets, oracle: device error => Pack error and nil Meta; Build: every peer-call index x its fault kinds, oracles: error diagnostic returned, builder refuses afterwards (porcupine history check), no bundle from a failed build, target not openable at any callback boundary or with any torn manifest prefix, finder diagnostics delivered once with severity/text intact and file names rewritten. evaluations = faulted runs; distinct = scenario hash; non-trivial = a fault actually fired.",
 		Assume: []string{"crash model: process death at a callback boundary with all completed system calls durable (go-slug never syncs and claims nothing about page-cache loss)", "syscall-level faults (EIO on open/rename) are not injected: no property quantifies over them", "a short write with nil error is not a fault kind (compress/flate discards the count)"},
 		Real:   realCommon, Sim: append(pwSim, "SimReader fault plans", "fault-injecting fetcher/registry/finder peers", "porcupine poison-history model")}
 	plans["C19"] = &Plan{ID: "C19", Level: "exploration",
